@@ -175,10 +175,10 @@ Section WithFam.
   Definition dial_ok (m: mname) (d: option did) : Prop :=
     d = None \/ m = dialect_target m.
 
-  Lemma deps_with_wf bld c m fs :
+  Lemma deps_with_wf bld sk c m fs :
     (forall st c' m' st' r, wf st -> (exists f, In f fs /\ c' = f_cls f /\ m' = nested m (f_spec f)) ->
         bld st c' m' = (st', r) -> wf st') ->
-    forall st st' r, wf st -> deps_with bld c m fs st = (st', r) -> wf st'.
+    forall st st' r, wf st -> deps_with bld sk c m fs st = (st', r) -> wf st'.
   Proof.
     induction fs as [|f fs IH]; intros HB st st' r W D; cbn in D.
     - inversion D; subst; exact W.
@@ -187,7 +187,7 @@ Section WithFam.
       { intros s c' m' s' r' Ws (g & Ig & E1 & E2). eapply HB; eauto. exists g. split; [now right|auto]. }
       destruct (get_slot st (f_cls f) (nested m (f_spec f))).
       + eapply IH; eauto.
-      + destruct (Nat.eqb (f_cls f) c && negb (m_top m)).
+      + destruct (sk && Nat.eqb (f_cls f) c && negb (m_top m)).
         * eapply IH; eauto.
         * destruct (bld st (f_cls f) (nested m (f_spec f))) as [s1 [e|]] eqn:B.
           -- inversion D; subst. eapply HB; eauto. exists f. split; [now left|auto].
@@ -209,7 +209,7 @@ Section WithFam.
       + eapply INST; eauto.
       + destruct (unresolved F st c).
         * destruct ap; [eapply INST; eauto|]. inversion B; subst; exact W.
-        * destruct (deps_with (fun st c' m' => build F d5 n st true c' m' None) c m (c_fields (cls F c)) st)
+        * destruct (deps_with (fun st c' m' => build F d5 n st true c' m' None) (match d with None => true | Some _ => false end) c m (c_fields (cls F c)) st)
             as [s1 [e|]] eqn:D.
           -- inversion B; subst. eapply deps_with_wf; [|exact W|exact D].
              intros s c' m' s' r' Ws _ Bn. eapply IH; [exact Ws| |exact Bn]. now left.
@@ -558,16 +558,16 @@ Proof. intros E. unfold unresolved, is_bound. now rewrite E. Qed.
 Section Termination.
   Variable F : fam.
 
-  Lemma deps_with_bound_ncs bld c m fs :
+  Lemma deps_with_bound_ncs bld sk c m fs :
     (forall st c' m' st' r, bld st c' m' = (st', r) ->
         bound st' = bound st /\ (no_cache_stub st -> resolved F st -> no_cache_stub st')) ->
-    forall st st' r, deps_with bld c m fs st = (st', r) ->
+    forall st st' r, deps_with bld sk c m fs st = (st', r) ->
       bound st' = bound st /\ (no_cache_stub st -> resolved F st -> no_cache_stub st').
   Proof.
     intros HB. induction fs as [|f fs IH]; intros st st' r D; cbn in D.
     - inversion D; subst. split; auto.
     - destruct (get_slot st (f_cls f) (nested m (f_spec f))); [now apply (IH _ _ r)|].
-      destruct (Nat.eqb (f_cls f) c && negb (m_top m)); [now apply (IH _ _ r)|].
+      destruct (sk && Nat.eqb (f_cls f) c && negb (m_top m)); [now apply (IH _ _ r)|].
       destruct (bld st (f_cls f) (nested m (f_spec f))) as [s1 [e|]] eqn:B.
       + inversion D; subst. eapply HB; eauto.
       + destruct (HB _ _ _ _ _ B) as [E1 N1]. destruct (IH _ _ _ D) as [E2 N2]. split; [congruence|].
@@ -586,11 +586,11 @@ Section Termination.
         * destruct ap.
           -- split; [eapply install_bound; eauto|]. intros _ R. rewrite R in U. discriminate.
           -- inversion B; subst. split; auto.
-        * destruct (deps_with (fun st c' m' => build F true n st true c' m' None) c m (c_fields (cls F c)) st)
+        * destruct (deps_with (fun st c' m' => build F true n st true c' m' None) (match d with None => true | Some _ => false end) c m (c_fields (cls F c)) st)
             as [s1 [e|]] eqn:D.
           -- inversion B; subst.
-             exact (deps_with_bound_ncs _ _ _ _ (fun st c' m' st' r H => IH st true c' m' None st' r H) _ _ _ D).
-          -- destruct (deps_with_bound_ncs _ _ _ _ (fun st c' m' st' r H => IH st true c' m' None st' r H) _ _ _ D) as [E1 N1].
+             exact (deps_with_bound_ncs _ _ _ _ _ (fun st c' m' st' r H => IH st true c' m' None st' r H) _ _ _ D).
+          -- destruct (deps_with_bound_ncs _ _ _ _ _ (fun st c' m' st' r H => IH st true c' m' None st' r H) _ _ _ D) as [E1 N1].
              split; [rewrite (install_bound _ _ _ _ _ _ _ _ B); exact E1|].
              intros N R. eapply install_ncs; [apply N1; assumption|exact B|]. right. eauto.
   Qed.
@@ -600,7 +600,7 @@ Section Termination.
   Proof.
     destruct n as [|n]; cbn; [discriminate|]. rewrite andb_false_r. cbn.
     destruct (unresolved F st c); [discriminate|].
-    destruct (deps_with _ c m (c_fields (cls F c)) st) as [s1 [e|]]; [discriminate|].
+    destruct (deps_with _ _ c m (c_fields (cls F c)) st) as [s1 [e|]]; [discriminate|].
     unfold install. intros I. inversion I; subst. apply get_set_slot_same.
   Qed.
 
@@ -693,13 +693,13 @@ Section NoCacheError.
   Variable F : fam.
   Variable d5 : bool.
 
-  Lemma deps_with_no_attr bld c m fs :
+  Lemma deps_with_no_attr bld sk c m fs :
     (forall st c' m' st' e, bld st c' m' = (st', Some e) -> e <> EAttrCache) ->
-    forall st st' e, deps_with bld c m fs st = (st', Some e) -> e <> EAttrCache.
+    forall st st' e, deps_with bld sk c m fs st = (st', Some e) -> e <> EAttrCache.
   Proof.
     intros HB. induction fs as [|f fs IH]; intros st st' e D; cbn in D; [discriminate|].
     destruct (get_slot st (f_cls f) (nested m (f_spec f))); [eapply IH; eauto|].
-    destruct (Nat.eqb (f_cls f) c && negb (m_top m)); [eapply IH; eauto|].
+    destruct (sk && Nat.eqb (f_cls f) c && negb (m_top m)); [eapply IH; eauto|].
     destruct (bld st (f_cls f) (nested m (f_spec f))) as [s1 [e1|]] eqn:B.
     - inversion D; subst. eapply HB; eauto.
     - eapply IH; eauto.
@@ -719,7 +719,7 @@ Section NoCacheError.
       + eapply INST; eauto.
       + destruct (unresolved F st c).
         * destruct ap; [eapply INST; eauto|]. inversion B; discriminate.
-        * destruct (deps_with (fun st c' m' => build F d5 n st true c' m' None) c m (c_fields (cls F c)) st)
+        * destruct (deps_with (fun st c' m' => build F d5 n st true c' m' None) (match d with None => true | Some _ => false end) c m (c_fields (cls F c)) st)
             as [s1 [e1|]] eqn:D.
           -- inversion B; subst. eapply deps_with_no_attr; [|exact D].
              intros s c' m' s' e2 Bn. eapply IH; [|exact Bn]. congruence.
@@ -736,7 +736,7 @@ Section NoCacheError.
     destruct (c_lazy (cls F c) && ap && (negb d5 || false)); [eapply INST; eauto|].
     destruct (unresolved F st c).
     - destruct ap; [eapply INST; eauto|discriminate].
-    - destruct (deps_with _ c m (c_fields (cls F c)) st) as [s1 [e1|]]; [discriminate|]. eapply INST; eauto.
+    - destruct (deps_with _ _ c m (c_fields (cls F c)) st) as [s1 [e1|]]; [discriminate|]. eapply INST; eauto.
   Qed.
 
   Lemma cache_lookup_dialect_target st c m dd : cache_lookup st c (dialect_target m) dd = cache_lookup st c m dd.
